@@ -155,8 +155,8 @@ fn client(id: usize, seed: u64, ops: usize) {
                 assert!(got == want, "CONC-VIOLATION client {id} op {k}: UTC->TAI at UTC {u} ns adds {got} ns, want {want} ns");
             }
             4 => {
-                // round trip, outside the windows of known finding KF2
-                let u = (ts + r.below(40) as i128) * NS + r.below(NS as u64) as i128;
+                // round trip, on both sides of an entry (the seconds before an insertion included)
+                let u = (ts + r.below(80) as i128 - 40) * NS + r.below(NS as u64) as i128;
                 let e = Epoch::from_duration(dur(u), TimeScale::UTC);
                 let back = parts_ns(e.to_time_scale(TimeScale::TAI).to_time_scale(TimeScale::UTC).duration);
                 assert!(back == u, "CONC-VIOLATION client {id} op {k}: UTC->TAI->UTC at UTC {u} ns returns {back} ns");
